@@ -81,3 +81,36 @@ W.contract(
     note="product of a non-empty list is the left fold of the element `multiply` (wrapper obligation over reduce's contract)",
     **_RC,
 )
+
+
+# ---------------------------------------------------------------- reverse (C16: reverse is an involution)
+from .inputs import revv  # noqa: E402,F401
+from . import inputs  # noqa: E402
+
+W.contract(
+    "vyxal/elements.py::reverse#list",
+    params=dict(lhs=ListOf(VAL), ctx=VAL), result=VAL, setup=_setup_kinds("reverse"),
+    ensures=["items(result) == revv(lhs)"],
+    note="reverse of a plain list is the reversed sequence (the slice lhs[::-1], read through the engine's reversal spec)",
+    **_RC,
+)
+
+W.lemma(
+    "revv_of_append", vars=dict(s=SEQ(VAL), x=VAL),
+    goal="revv(s + [x]) == [x] + revv(s)",
+    ih=[dict(at=dict(s="s[1:]"), measure="len(s)", when="len(s) > 0")],
+    hints=["unfold(revv(s + [x]))", "unfold(revv(s))", "unfold(revv([x]))", "unfold(revv([x][1:]))"],
+    asserts=["len(s) == 0 or (s + [x])[1:] == s[1:] + [x]", "len(s) == 0 or (s + [x])[0] == s[0]"],
+    fuel=0, props=["C16"], executor="template",
+    note="reversal moves an appended item to the front",
+)
+
+W.lemma(
+    "revv_is_an_involution", vars=dict(s=SEQ(VAL)),
+    goal="revv(revv(s)) == s",
+    ih=[dict(at=dict(s="s[1:]"), measure="len(s)", when="len(s) > 0")],
+    hints=["unfold(revv(s))", "revv_of_append(revv(s[1:]), s[0])"],
+    asserts=["len(s) == 0 or [s[0]] + s[1:] == s"],
+    fuel=0, props=["C16"], executor="template",
+    note="reversing twice gives the list back (with reverse#list: the element is an involution on plain lists)",
+)
